@@ -70,6 +70,9 @@ def native_build(src, out, defs=(), extra=(), std='c++11', cxx='g++', opt='-O2',
     for d in defs: cmd.append('-D' + d)
     cmd += list(extra)
     rc, o, e, dt, to = sh(cmd, timeout=600)
+    if rc != 0 and 'undefined reference' in e:
+        # the TU defines functions the harness never calls that reference the rest of the program: link anyway (an unresolved call would crash only if reached)
+        rc, o, e, dt, to = sh(cmd + ['-no-pie', '-Wl,--warn-unresolved-symbols'], timeout=600)
     if rc != 0: raise Broken('native build failed on %s:\n%s' % (src, e[-3000:]))
     return out
 
